@@ -65,3 +65,10 @@ Print Assumptions C19_listing_total.
 Theorem C19_dssr_total : forall lw, exists r, dssr_lw lw = Ok r.
 Proof. exact dssr_lw_total. Qed.
 Print Assumptions C19_dssr_total.
+
+(* beyond the swept lengths: every label of seven or more characters, over ANY alphabet, is kept as an 'other' interaction
+   (after the optional n prefix and a suffix at least five characters remain; every recognised form has three or four) *)
+From RV Require Import Proofs.C19Long.
+Theorem C19_long_labels_are_other : forall s, 7 <= length s -> unify s = Ok (LS "other", None).
+Proof. exact unify_long. Qed.
+Print Assumptions C19_long_labels_are_other.
